@@ -659,12 +659,24 @@ def exi2_consumers(ctx: Ctx) -> None:
                 ctx.R.ok("EXI-2", "obj fix-up reads the first positional argument (self) of the next inner frame")
             else:
                 ctx.R.fail("EXI-2", m, n, "obj of the exiting context must be the first argument (self) of the __exit__ frame")
-            # guarded by `ret and ret[-1].is_exiting and next_inner is not None`
+            # guarded by exactly `ret and ret[-1].is_exiting and next_inner is not None` (and the callee having a first argument)
             gs = guards_of(m, n, fn)
-            txt = " && ".join(norm(g) for g, pol in gs if pol)
-            for need in ("ret[-1].is_exiting", "next_inner is not None"):
-                if need not in txt:
-                    ctx.R.fail("EXI-2", m, n, f"obj fix-up is no longer guarded by `{need}`")
+            conj = ast.BoolOp(op=ast.And(), values=[gx if pol else ast.UnaryOp(op=ast.Not(), operand=gx) for gx, pol in gs]) if len(gs) > 1 else (gs[0][0] if gs else ast.Constant(value=True))
+            atoms = ["ret", "ret[-1].is_exiting", "next_inner is None", "args.args"]
+            from ..util import equivalent
+            try:
+                okg, cexg = equivalent(conj, lambda e: e[atoms[0]] and e[atoms[1]] and (not e[atoms[2]]) and e[atoms[3]], atoms)
+            except AnalysisError as ex:
+                okg, cexg = None, str(ex)
+            if okg:
+                ctx.R.ok("EXI-2", "obj fix-up applies iff there is an exiting context and a next inner frame (with a first argument)")
+            elif okg is False:
+                extra = {k: v for k, v in (cexg or {}).items() if k not in atoms}
+                ctx.R.fail("EXI-2", m, n, "the exiting manager is recovered from the next inner frame under a different condition than 'the last context is exiting and there is a next inner frame': "
+                           f"counterexample {cexg}" + (" (an additional test such as the callee's name makes obj stay None for exit functions that are aliased or not literally named __exit__)" if extra else ""),
+                           construct="guard of the obj fix-up")
+            else:
+                ctx.R.undecided("EXI-2", f"guard of the obj fix-up not understood: {cexg}")
 
 
 # --------------------------------------------------------------------- JOIN-1
@@ -868,6 +880,21 @@ def fall1(ctx: Ctx) -> None:
 
 
 # --------------------------------------------------------------------- OPC-5 version coverage of opcode tests
+class _Abs(ast.NodeTransformer):
+    def visit_Name(self, node: ast.Name) -> ast.AST:
+        return ast.copy_location(ast.Name(id="_", ctx=node.ctx), node) if node.id not in ("op", "dis", "bytes", "len") else node
+
+    def visit_Attribute(self, node: ast.Attribute) -> ast.AST:
+        if node.attr in ("opname", "opmap", "hasjabs", "hasjrel"):
+            return ast.copy_location(ast.Attribute(value=self.visit(node.value) if not isinstance(node.value, ast.Name) or node.value.id != "dis" else node.value, attr=node.attr, ctx=node.ctx), node)
+        return ast.copy_location(ast.Name(id="_", ctx=ast.Load()), node)
+
+
+def _abstract(n: ast.AST) -> str:
+    import copy
+    return norm(ast.fix_missing_locations(_Abs().visit(copy.deepcopy(n))))
+
+
 def opcode_test_table(ctx: Ctx) -> Dict[str, List[str]]:
     """every comparison against an opcode in the low-level modules -> versions under which it is reachable"""
     table: Dict[str, Set[str]] = {}
@@ -883,8 +910,9 @@ def opcode_test_table(ctx: Ctx) -> Dict[str, List[str]]:
                     if isinstance(x, ast.Attribute) and x.attr == "opname":
                         has = True
                 if has:
-                    # keyed by module and comparison text (not by function: moving code into a helper keeps the key)
-                    key = f"{mn}: {norm(n)}"
+                    # keyed by module and the comparison with every variable name abstracted away (moving code into a
+                    # helper or renaming `offs` keeps the key; which offset relative to the position is compared stays visible)
+                    key = f"{mn}: {_abstract(n)}"
                     table.setdefault(key, set()).update(reach.live.get(id(n), frozenset()))
     return {k: sorted(v) for k, v in table.items()}
 
@@ -910,7 +938,7 @@ def opc5_version_coverage(ctx: Ctx) -> None:
         if lost:
             node = None
             for n in ast.walk(mod.tree):
-                if isinstance(n, ast.Compare) and f"{mn}: {norm(n)}" == key:
+                if isinstance(n, ast.Compare) and f"{mn}: {_abstract(n)}" == key:
                     node = n
             ctx.R.fail("OPC-5", mod, node, f"the opcode test `{key.split(': ', 1)[1][:80]}` was reachable under CPython {want} and is now reachable only under {cur[key]}: "
                        f"the bytecode / f_lasti convention it handles is no longer handled on {lost} (no test on the 3.12-only suite can notice)",
